@@ -41,8 +41,21 @@ def problems(draw, limits="mixed", max_step="none", weights="mixed", faults=Fals
         if all(v is None for v in spec["max_step"]):
             spec["max_step"][0] = 0.1
     # ---- targets
-    modes = target_modes or ["reachable", "reachable", "outside", "far", "arbitrary", "on-limit"]
+    modes = target_modes or ["reachable", "reachable", "outside", "far", "arbitrary", "on-limit", "near-tolerance"]
     mode = draw(st.sampled_from(modes))
+    if mode == "near-tolerance":
+        # the start point misses ONE tolerance by 0.5..30 % while the other targets are met exactly and are steep bowls
+        # centred at the start: every substep of the line search raises the penalty although the later (smaller)
+        # trial points are within every tolerance
+        spec["shape"] = "full"
+        spec["family"] = "bowl"
+        if m < 2:
+            m = spec["m"] = 2
+            spec["tweights"] = spec["tweights"] + [1.0]
+        spec["tweights"] = [1.0] * m
+        spec["vweights"] = [1.0] * n
+        spec["centre"] = list(spec["x0"])
+        spec["steepness"] = [draw(st.sampled_from([1000.0, 1250.0, 1600.0, 2200.0])) for _ in range(m - 1)]
     spec["target_mode"] = mode
     f, _ = OF.make_function(spec)
     width = box[:, 1] - box[:, 0]
@@ -60,12 +73,22 @@ def problems(draw, limits="mixed", max_step="none", weights="mixed", faults=Fals
         xs = sg * draw(st.sampled_from([10.0, 30.0, 100.0])) * np.maximum(width, 1.0)
     else:
         xs = None
-    if xs is None:
+    if mode == "near-tolerance":
+        f, _ = OF.make_function(spec)
+        t0 = [float(v) for v in f(x0)]
+        tol0 = 0.1
+        t0[0] -= draw(st.sampled_from([-1.0, 1.0])) * tol0 * draw(st.sampled_from([1.005, 1.01, 1.05, 1.3]))
+        spec["targets"] = t0
+        spec["near_tol"] = tol0
+    elif xs is None:
         spec["targets"] = [draw(st.floats(-3, 3)) for _ in range(m)]
     else:
         spec["targets"] = [float(v) for v in f(xs)]
     spec["xstar"] = None if xs is None else [float(v) for v in xs]
-    spec["tols"] = [draw(st.sampled_from([1e-9, 1e-8, 1e-6, 1e-4, 1e-2])) for _ in range(m)]
+    spec["tols"] = [draw(st.sampled_from([1e-9, 1e-8, 1e-6, 1e-4, 1e-2, 0.1, 0.3])) for _ in range(m)]
+    if mode == "near-tolerance":
+        spec["tols"] = [0.1] * m
+        spec["limits"] = None
     spec["n_steps_max"] = draw(st.sampled_from([1, 2, 3, 5, 8, 8]))
     spec["broyden"] = draw(st.sampled_from([False, False, True, 2, 3]))
     # ---- disabled subsets (indices); never all knobs / all targets
